@@ -307,6 +307,10 @@ mod imp {
         vop!(t, "copysign", |a, m| rv(a.copysign(m.v[1])));
         vop!(t, "mul_add", |a, m| rv(a.mul_add(m.v[0], m.v[1])));
         vop!(t, "lerp", |a, m| rv(a.lerp(m.v[0], 0.3)));
+        // towards a copy with the same visible lanes but its own hidden lane (and towards itself)
+        vop!(t, "lerp(rebuilt copy)", |a, m| o((a.lerp(Vec3A::from_array(a.to_array()), 0.3).to_array().map(|x| x.to_bits()), a.lerp(a, 0.3).to_array().map(|x| x.to_bits()), Vec3A::from_array(a.to_array()).lerp(a, 0.7).to_array().map(|x| x.to_bits()), a.slerp(Vec3A::from_array(a.to_array()), 0.3).to_array().map(|x| x.to_bits()))));
+        // bounds whose hidden lanes come from the state: ordered in the visible lanes, arbitrary in the fourth
+        vop!(t, "clamp(bounds from the state)", |a, m| o(catch(|| m.v[0].clamp(a.min(m.v[1]), a.max(m.v[1])).to_array().map(|x| x.to_bits())).ok()));
         vop!(t, "slerp", |a, m| rv(a.slerp(m.v[0], 0.3)));
         vop!(t, "midpoint", |a, m| rv(a.midpoint(m.v[0])));
         vop!(t, "move_towards", |a, m| rv(a.move_towards(m.v[0], 0.5)));
